@@ -62,7 +62,7 @@ func c02GoSummary(file []byte) (string, error) {
 }
 
 func RunC02(ctx *core.Ctx) {
-	ctx.SetRule("files written from catalogue struct types under random configurations (page version, codec (40 % of the cases force none, snappy or gzip file-wide; fields keep their own codec/encoding tags), page/row-group/dictionary limits, statistics, bloom filters), by GenericWriter, by a writer reused through Reset, and through WriteRowGroup from a file written with the same options (verbatim copy), from a file written with other options (re-encode) or from a buffer; catalogue types with Go maps included (structure and counts only); random key/value metadata, created_by and declared sorting columns, which the spec views of the footer (file.meta) must return as configured; the page-index offsets must be those the mirror of writeFileFooter computes from the same lengths (L2); sub-check longrow: one row whose list has 1023..131073 elements (around every power-of-two multiple of the 1024-value copy buffer) through every mode; each file is parsed by the Lean spec reader (thrift compact, footer, page headers at the announced offsets, offset/column index) which re-derives the layout numbers with the proved accounting model and, for uncompressed, snappy and gzip chunks, decompresses (spec Snappy reader, spec inflate/gunzip) and decodes every page with the spec decoders (levels, dictionary, PLAIN/RLE/DELTA_*/BYTE_STREAM_SPLIT values) comparing decoded counts with the headers and indexes; the decoded Dremel streams (file.dump) are compared column by column with the reference shredder's streams of the rows written (columns with a chunk in another codec are skipped and counted); non-trivial = more than one page in some chunk or more than one row group")
+	ctx.SetRule("files written from catalogue struct types under random configurations (page version, codec (40 % of the cases force none, snappy or gzip file-wide; fields keep their own codec/encoding tags), page/row-group/dictionary limits, statistics, bloom filters (half of the cases: all leaves or a subset, 1/10/40 bits per value, sections written after each row group or deferred to the end of the file through DeferBloomFiltersWithBuffers with memory, 64-byte-chunk or temp-file buffers, bitsets uncompressed or gzip)), by GenericWriter, by a writer reused through Reset, and through WriteRowGroup from a file written with the same options (verbatim copy), from a file written with other options (re-encode) or from a buffer; catalogue types with Go maps included (structure and counts only); random key/value metadata, created_by and declared sorting columns, which the spec views of the footer (file.meta) must return as configured; the page-index offsets must be those the mirror of writeFileFooter computes from the same lengths (L2); sub-check longrow: one row whose list has 1023..131073 elements (around every power-of-two multiple of the 1024-value copy buffer) through every mode; each file is parsed by the Lean spec reader (thrift compact, footer, page headers at the announced offsets, offset/column index) which re-derives the layout numbers with the proved accounting model and, for uncompressed, snappy and gzip chunks, decompresses (spec Snappy reader, spec inflate/gunzip) and decodes every page with the spec decoders (levels, dictionary, PLAIN/RLE/DELTA_*/BYTE_STREAM_SPLIT values) comparing decoded counts with the headers and indexes; the decoded Dremel streams (file.dump) are compared column by column with the reference shredder's streams of the rows written (columns with a chunk in another codec are skipped and counted); non-trivial = more than one page in some chunk or more than one row group")
 	tmp := filepath.Join(".build", "tmp", fmt.Sprintf("c02-%s-%d", ctx.Variant, os.Getpid()))
 	os.MkdirAll(tmp, 0o755)
 	defer os.RemoveAll(tmp)
@@ -90,6 +90,7 @@ func RunC02(ctx *core.Ctx) {
 				return
 			}
 			r := ctx.Rand("c02/" + e.Name)
+			rb := ctx.Rand("c02bloom/" + e.Name)
 			for k := 0; k < ncases; k++ {
 				n := []int{0, 1, 3, 40, 64, 65, 130, 300}[r.Intn(8)]
 				prof := &gen.Profile{NullProb: []float64{0.1, 0.5, 0.95}[r.Intn(3)], MaxLen: 1 + r.Intn(4), SmallDomain: r.Intn(2) == 0}
@@ -110,16 +111,15 @@ func RunC02(ctx *core.Ctx) {
 					cfg.Opts = append(cfg.Opts, parquet.DictionaryMaxBytes(16))
 					cfg.Desc += " dictmax=16"
 				}
-				// bloom filters on every leaf column, sometimes
+				// bloom filters, in half of the cases: on every leaf column or on a subset; every way
+				// the writer has of placing and framing the sections (c02BloomOpts). The choices
+				// beyond "all leaves, inline, uncompressed" come from their own stream.
 				opts := cfg.Opts
 				desc := cfg.Desc
-				if r.Intn(3) == 0 {
-					var fs []parquet.BloomFilterColumn
-					for _, p := range e.Schema.Columns() {
-						fs = append(fs, parquet.SplitBlockFilter(10, p...))
-					}
-					opts = append(append([]parquet.WriterOption{}, opts...), parquet.BloomFilters(fs...))
-					desc += " bloom"
+				if r.Intn(3) == 0 || rb.Intn(4) == 0 {
+					bo, bd := c02BloomOpts(rb, e.Schema.Columns(), tmp)
+					opts = append(append([]parquet.WriterOption{}, opts...), bo...)
+					desc += bd
 				}
 				// value-level agreement covers uncompressed, snappy and gzip chunks: force one of them
 				// file-wide in 40 % of the cases (a later option overrides the earlier one; fields
@@ -192,6 +192,16 @@ func c02Judge(ctx *core.Ctx, d *drv.Driver, tmp string, e *gen.Entry, rows refle
 				var bl int
 				fmt.Sscanf(sum[j:], "bloom=%d", &bl)
 				ctx.HistN("bloom filter sections parsed by the spec reader", mode, int64(bl))
+				if i := strings.Index(desc, " place="); i >= 0 && bl > 0 {
+					var place, bc string
+					fmt.Sscanf(desc[i:], " place=%s bloomcodec=%s", &place, &bc)
+					nsec := "1 section"
+					if bl > 1 {
+						nsec = ">= 2 sections"
+					}
+					ctx.Hist("bloom filter placement", place+", "+nsec)
+					ctx.Hist("bloom filter bitset codec", bc)
+				}
 			}
 		}
 		ctx.Case(e.Name+desc+mode+fmt.Sprint(k, n), multi || data > chunks)
@@ -662,4 +672,52 @@ func c02Corpus(ctx *core.Ctx, d interface {
 		}
 		ctx.Fail("L2", "corpus-dump-differs", fmt.Sprintf("file.dump of a recorded file differs from the recorded hand-computed streams at token %d: expected %s got %s", pos, a, b), map[string]any{"case": name, "token": pos, "expected": a, "got": b})
 	}
+}
+
+// c02BloomOpts: one way of asking for bloom filters. Which leaves: all of them, or a non-empty
+// random subset. Where the sections go: after each row group (the default) or, with
+// DeferBloomFiltersWithBuffers, buffered and written together between the last row group and the
+// page indexes — through a pool of in-memory buffers of the default chunk size, of 64-byte
+// chunks (one section spans several chunks) or of temp files. How the bitset is framed:
+// uncompressed or gzip (BloomFilterCompression). 1, 10 or 40 bits per value (one block .. many).
+// Whatever the choice, the spec reader must find at every announced bloom_filter_offset a header
+// and a bitset that take exactly bloom_filter_length bytes and share no byte with anything else.
+func c02BloomOpts(rb *rand.Rand, leaves [][]string, tmp string) ([]parquet.WriterOption, string) {
+	bits := []uint{10, 10, 1, 40}[rb.Intn(4)]
+	var fs []parquet.BloomFilterColumn
+	which := "all"
+	if len(leaves) > 1 && rb.Intn(3) == 0 {
+		var idx []string
+		pick := rb.Intn(len(leaves)) // this one at least
+		for i, p := range leaves {
+			if i == pick || rb.Intn(2) == 0 {
+				fs = append(fs, parquet.SplitBlockFilter(bits, p...))
+				idx = append(idx, fmt.Sprint(i))
+			}
+		}
+		which = "leaves:" + strings.Join(idx, ",")
+	} else {
+		for _, p := range leaves {
+			fs = append(fs, parquet.SplitBlockFilter(bits, p...))
+		}
+	}
+	opts := []parquet.WriterOption{parquet.BloomFilters(fs...)}
+	place := "inline"
+	switch rb.Intn(6) {
+	case 0, 1:
+		place = "deferred(pool)"
+		opts = append(opts, parquet.DeferBloomFiltersWithBuffers(parquet.NewBufferPool()))
+	case 2:
+		place = "deferred(chunk64)"
+		opts = append(opts, parquet.DeferBloomFiltersWithBuffers(parquet.NewChunkBufferPool(64)))
+	case 3:
+		place = "deferred(tempfile)"
+		opts = append(opts, parquet.DeferBloomFiltersWithBuffers(parquet.NewFileBufferPool(tmp, "bloom.*")))
+	}
+	codec := "none"
+	if rb.Intn(4) == 0 {
+		codec = "gzip"
+		opts = append(opts, parquet.BloomFilterCompression(&parquet.Gzip))
+	}
+	return opts, fmt.Sprintf(" bloom=%s bits=%d place=%s bloomcodec=%s", which, bits, place, codec)
 }
